@@ -542,8 +542,9 @@ func c19Cells(tier string, seed uint64) (cells []c19Cell, exhaustiveUpTo int) {
 			if n <= 1 && o != "sorted" {
 				continue
 			}
-			// the last four do not fit the field's 32 bits: 2^32+50, -2^32+50, 2^32, 2^63-1
-			for _, bad := range []string{"-1", "1001", "5000", "-2147483648", "2147483647", "4294967346", "-4294967246", "4294967296", "9223372036854775807"} {
+			// the last four do not fit the field's 32 bits: 2^32+50, -2^32+50, 2^32, 2^63-1; the three before them sit within
+			// 1000 of the ends of the 32-bit range (a difference with a valid priority wraps around there)
+			for _, bad := range []string{"-1", "1001", "5000", "-2147483648", "2147483647", "-2147483148", "-2147483398", "2147483147", "4294967346", "-4294967246", "4294967296", "9223372036854775807"} {
 				for j := 0; j <= n; j++ {
 					add(c19Cell{kind: "badPriority", n: n, i: j, j: -1, order: o, detail: bad})
 				}
@@ -577,7 +578,7 @@ func c19Cells(tier string, seed uint64) (cells []c19Cell, exhaustiveUpTo int) {
 		n := r.between(full+1, 64)
 		i := r.intn(n)
 		add(c19Cell{kind: "samePriority", n: n, i: i, j: r.intn(n + 1), order: pick(r, c19Orders), detail: fmt.Sprint("s", k)})
-		add(c19Cell{kind: "badPriority", n: n, i: r.intn(n + 1), j: -1, order: pick(r, c19Orders), detail: pick(r, []string{"-1", "1001", "4294967346"})})
+		add(c19Cell{kind: "badPriority", n: n, i: r.intn(n + 1), j: -1, order: pick(r, c19Orders), detail: pick(r, []string{"-1", "1001", "4294967346", "-2147483148", "-2147483008", "2147483147"})})
 	}
 	return cells, full
 }
